@@ -86,7 +86,10 @@ def run(ctx):
         key = name
         if excA is not None or excB is not None:
             same = excA is not None and excB is not None and type(excA) is type(excB)
-            c.require(same, key + ":exception-in-one-presentation",
+            dom = any(isinstance(e_, ValueError) and "domain error" in str(e_) for e_ in (excA, excB))
+            # mechanism split: sqrt of a negative number in update_scaling when an accuracy-limited KKT solver lets
+            # the iterates drift out of the cone after convergence stalls (escapes as ValueError('domain error'))
+            c.require(same, key + (":escaped-domain-error" if dom else ":exception-in-one-presentation"),
                       "A: %r   B: %r" % (excA, excB))
             return "exception"
         stA, stB = solA["status"], solB["status"]
